@@ -15,7 +15,9 @@ ID = 'C04'
 LEVEL = 'model_checking'
 
 FORMATS = ('hex', 'listing', 'intel_hex', 'minhex')
-ZONES = [{'name': 'z1', 'start': 2, 'end': 9}, {'name': 'z2', 'start': 4, 'end': 12}]
+ZONES = [{'name': 'z1', 'start': 2, 'end': 9}, {'name': 'z2', 'start': 4, 'end': 12},
+         {'name': 'z3', 'start': 0, 'end': 2},        # shares exactly one address (2) with z1
+         {'name': 'z4', 'start': 3, 'end': 3}]        # one address wide
 
 
 def line_options(starts, quick):
@@ -36,6 +38,10 @@ def line_options(starts, quick):
             opts.append(('zorg1', s, 2))      # .org (s-2) "z1"
         if 4 <= s <= 10:
             opts.append(('zorg2', s, 1))      # .org (s-4) "z2"
+        if 0 <= s <= 2:
+            opts.append(('zorg3', s, 1))      # .org s "z3"
+        if s == 3:
+            opts.append(('zorg4', s, 1))      # .org 0 "z4"
         opts.append(('inc', s, 2))            # the line lives in an included file
         opts.append(('predef', s, 2))         # predefined data block of the ISA definition
     return opts
@@ -72,6 +78,10 @@ def place(lines):
             body = [('org', s - 2, 'z1'), ('data', 1, [m, m + 1])]
         elif kind == 'zorg2':
             body = [('org', s - 4, 'z2'), ('data', 1, [m])]
+        elif kind == 'zorg3':
+            body = [('org', s, 'z3'), ('data', 1, [m])]
+        elif kind == 'zorg4':
+            body = [('org', 0, 'z4'), ('data', 1, [m])]
         elif kind == 'inc':
             if ninc:
                 return None
@@ -94,7 +104,7 @@ def meta(tier):
                 '--no-binary and one of the four pretty-print formats, judged on acceptance only; states = distinct sets of occupied (address, owner) cells',
         'bounds': {'starts': 'pairs 0..6; triples 0..3 (quick) / 0..6 (thorough)',
                    'kinds': ['.byte x1..3', '.fill 0|1|3', '.zerountil (len 2, len 0)', 'nop', 'ldi', 'jmp', 'm2 (macro of two 12-bit steps)',
-                             '.org k "z1" (z1=2..9)', '.org k "z2" (z2=4..12, overlapping z1)', 'line in an included file',
+                             '.org k "z1" (z1=2..9)', '.org k "z2" (z2=4..12, overlapping z1)', '.org k "z3" (z3=0..2, sharing one address with z1)', '.org 0 "z4" (z4=3..3)', 'line in an included file',
                              'predefined data block'],
                    'orders': 'all permutations (ordered tuples)'},
         'assumptions': ['pairs involving a muted line are not generated (the statement does not say whether muted bytes occupy)'],
@@ -124,7 +134,7 @@ def shard(acc, tier, idx, n):
     pair_opts = line_options(range(0, 7), q)
     tri_opts = line_options(range(0, 4) if q else range(0, 7), q)
     if q:
-        tri_opts = [o for o in tri_opts if o[0] in ('bytes', 'fill', 'jmp', 'm2', 'zorg1', 'inc', 'predef') and not (o[0] == 'bytes' and o[2] == 2)]
+        tri_opts = [o for o in tri_opts if o[0] in ('bytes', 'fill', 'jmp', 'm2', 'zorg1', 'zorg3', 'zorg4', 'inc', 'predef') and not (o[0] == 'bytes' and o[2] == 2)]
     plans = [(pair_opts, 2), (tri_opts, 3)]
     if not q:
         quad = [o for o in line_options(range(0, 4), q) if o[0] in ('bytes', 'fill', 'predef') and o[2] in (0, 2)]
